@@ -218,6 +218,9 @@ ProjCols(Q, js) == IF js = <<>> THEN MZero(MRows(Q), MRows(Q))
    in every combination of the two arguments of a binary routine.  The last two forms have irrational entries; the
    harness derives them numerically from A - the EXPECTED value stays the one emitted for A, because it is a
    function of the subspace.                                                                                   *)
+\* Mixed real / complex operands: the real part of a Gaussian-integer matrix (a REAL matrix handed to the code as a
+\* float array) next to a complex one, in both argument orders of every binary routine.
+RePart(A) == Fix([i \in 1..MRows(A) |-> [j \in 1..MCols(A) |-> <<A[i][j][1], 0, 1>>]])
 ColFactors == <<Gi(2), Gi(-1), G(0, 1), G(1, 1), G(0, -2), G(1, -1), Gi(1)>>
 ColFactor(id, j) == ColFactors[((id + 3 * j) % Len(ColFactors)) + 1]
 ColScale(id, A) == Fix([i \in 1..MRows(A) |-> [j \in 1..MCols(A) |-> GMul(A[i][j], ColFactor(id, j))]])
@@ -247,6 +250,7 @@ ProjRecP(id, A, M, p) ==
                  Till == Fix([i \in 1..n |-> [j \in 1..n |-> IF i = 1 THEN Gi(4096) ELSE IF i = j THEN GOne ELSE GZero]])
              IN [valid |-> TRUE, kind |-> "proj", id |-> id, A |-> A, M |-> M, den |-> p.den, sc |-> ScaleOf(id), pw |-> ScalePower("proj"),
                  AD |-> ColScale(id, A), forms |-> BasisForms,
+                 Mr |-> RePart(M), PMr |-> XMul(p.num, RePart(M)),       \* a REAL matrix projected by the same basis
                  AI |-> IF n >= 2 THEN XMul(A, Till) ELSE <<>>, detTill |-> Till[1][1][1],     \* det of the upper triangular Till = product of its diagonal = 2^12
                  num |-> p.num, onum |-> oN, rnum |-> rN,
                  PM |-> XMul(p.num, M), oPM |-> XMul(oN, M), RM |-> XMul(rN, M)]
@@ -390,6 +394,9 @@ ChordRec(id) ==
                  Till == Fix([i \in 1..n |-> [j \in 1..n |-> IF i = 1 THEN Gi(4096) ELSE IF i = j THEN GOne ELSE GZero]])
              IN [valid |-> TRUE, kind |-> "chord", id |-> id, n |-> n, A |-> A, B |-> B, T |-> T, sc |-> ScaleOf(id),
                  AI |-> IF n >= 2 THEN XMul(A, Till) ELSE <<>>,          \* nearly dependent basis of span(A)
+                 \* mixed operands: the REAL matrix Re(A) against the (complex) B, both orders
+                 Ar |-> IF ProjND(RePart(A)).den = 0 THEN <<>> ELSE RePart(A),
+                 d2rc |-> IF ProjND(RePart(A)).den = 0 THEN <<>> ELSE <<D2Frob(ProjND(RePart(A)), pb), D2Frob(pb, ProjND(RePart(A)))>>,
                  AD |-> ColScale(id, A), BD |-> ColScale(id + 1, B), forms |-> BasisForms,
                  d2ad |-> D2Trace(ProjND(ColScale(id, A)), pb, n),       \* columns of A rescaled individually
                  d2bd |-> D2Trace(pa, ProjND(ColScale(id + 1, B)), n),
@@ -421,6 +428,7 @@ ChordAngles          == IsChord => /\ RLe(RZero, kase.cos2prod) /\ RLe(kase.cos2
                                    /\ (kase.n = 1 => kase.cos2prod = kase.cos2sum)
                                    /\ (kase.d2 = RZero => kase.cos2prod = ROne)
 \* the distance depends on the two subspaces only (columns rescaled individually)
+ChordMixedSymmetric  == IsChord /\ kase.d2rc # <<>> => kase.d2rc[1] = kase.d2rc[2]
 ChordBasisFormLaw    == IsChord => kase.d2ad = kase.d2 /\ kase.d2bd = kase.d2 /\ kase.forms = BasisForms
 ChordRange           == IsChord => RLe(RZero, kase.d2)
                                    /\ RLe(kase.d2, R(Min(kase.n, MRows(kase.A) - kase.n)))
@@ -464,6 +472,8 @@ ChordXRec(id) ==
                  pat == ProjND(AT)
                  pbt == ProjND(BT)
              IN [valid |-> TRUE, kind |-> "chordx", id |-> id, sc |-> ScaleOf(id), rows |-> m,
+                 Ar |-> IF ProjND(RePart(A)).den = 0 THEN <<>> ELSE RePart(A),
+                 d2rc |-> IF ProjND(RePart(A)).den = 0 THEN <<>> ELSE <<D2Frob(ProjND(RePart(A)), pb), D2Frob(pb, ProjND(RePart(A)))>>,
                  AD |-> ColScale(id, A), BD |-> ColScale(id + 1, B), forms |-> BasisForms,
                  d2ad |-> D2TraceG(ProjND(ColScale(id, A)), pb, n1, n2), d2bd |-> D2TraceG(pa, ProjND(ColScale(id + 1, B)), n1, n2), n1 |-> n1, n2 |-> n2, nested |-> nested,
                  A |-> A, B |-> B, AT |-> AT, BT |-> BT, UA |-> UA, UB |-> UB, HA |-> XMul(Rh, A), HB |-> XMul(Rh, B),
@@ -489,6 +499,7 @@ ChordXSymmetric       == IsChordX => kase.d2ba = kase.d2
 ChordXBasisInvariant  == IsChordX => kase.d2atb = kase.d2 /\ kase.d2abt = kase.d2
 ChordXUnitaryInvariant == IsChordX => /\ kase.d2u = kase.d2
                                       /\ XMul(kase.Rh, kase.Rh) = IDiag(kase.rows, kase.hnu * kase.hnu)
+ChordXMixedSymmetric  == IsChordX /\ kase.d2rc # <<>> => kase.d2rc[1] = kase.d2rc[2]
 ChordXBasisFormLaw    == IsChordX => kase.d2ad = kase.d2 /\ kase.d2bd = kase.d2 /\ kase.forms = BasisForms
 ChordXRange           == IsChordX => LET lowest == <<Abs1(kase.n1 - kase.n2), 2>> IN
                             /\ RLe(RNorm(lowest[1], 2), kase.d2)
@@ -564,6 +575,9 @@ SmwScaleLaw  == IsSmw => LET B2 == IScale(2, XAdd(kase.A, DiagK(kase.dd, kase.k)
 ArgTypes == <<"int", "int64", "int32", "int16", "uint8", "int8", "uint16">>
 ArgTypeOf(id) == ArgTypes[((id \div 2) % Len(ArgTypes)) + 1]
 FullPrecision(atype) == ~(Dev.ConvNarrowIntHalfPrecision /\ atype \in {"int16", "uint8", "int8", "uint16"})
+\* frame laws of every conversion function called with a float ARRAY: the array is an input only, and a second
+\* call with the same array returns the same values (a conversion has no state)
+ConvFrame == {"ArgumentsUnchanged", "SecondCallSameResult"}
 DbOfDecade(k)   == 10 * k
 DbmOfDecade(k)  == 10 * (k + 3)
 DecadeOfDb(y)   == y \div 10          \* y a multiple of 10
@@ -572,7 +586,7 @@ ConvRec(id) ==
     LET K == Alpha                    \* decades -K..K
         k == (id % (2 * K + 1)) - K
         m == ((id \div (2 * K + 1)) % 9) + 1
-    IN  [valid |-> TRUE, kind |-> "conv", id |-> id, k |-> k, m |-> m, atype |-> ArgTypeOf(id), precise |-> FullPrecision(ArgTypeOf(id)),
+    IN  [valid |-> TRUE, kind |-> "conv", id |-> id, frame |-> ConvFrame, k |-> k, m |-> m, atype |-> ArgTypeOf(id), precise |-> FullPrecision(ArgTypeOf(id)),
          dB |-> DbOfDecade(k), dBm |-> DbmOfDecade(k),
          linOfdB |-> DecadeOfDb(10 * k),            \* dB2Linear(10 k)  = 10^(this)
          linOfdBm |-> DecadeOfDbm(10 * k),          \* dBm2Linear(10 k) = 10^(this)
@@ -584,7 +598,7 @@ ConvInverse == IsConv => /\ DecadeOfDb(kase.dB) = kase.k /\ DecadeOfDbm(kase.dBm
                          /\ DbOfDecade(kase.linOfdB) = 10 * kase.k
                          /\ DbmOfDecade(kase.linOfdBm) = 10 * kase.k
 \* the value of a conversion does not depend on the width of an integer argument
-ConvFullPrecision == kase.kind \in {"conv", "ebn0"} => kase.precise
+ConvFullPrecision == kase.kind \in {"conv", "ebn0"} => kase.precise /\ kase.frame = ConvFrame
 ConvOffset  == IsConv => kase.dBm - kase.dB = 30 /\ kase.linOfdB - kase.linOfdBm = 3
 
 \* Eb/N0 = SNR / bits-per-symbol (linear).  For Eb/N0 = 10^k: SNR = b * 10^k, an exact rational.
@@ -592,7 +606,7 @@ EbRec(id) ==
     LET K == Alpha
         k == (id % (2 * K + 1)) - K
         b == ((id \div (2 * K + 1)) % 10) + 1
-    IN  [valid |-> TRUE, kind |-> "ebn0", id |-> id, k |-> k, b |-> b, atype |-> ArgTypeOf(id), precise |-> FullPrecision(ArgTypeOf(id)), ebn0dB |-> 10 * k,
+    IN  [valid |-> TRUE, kind |-> "ebn0", id |-> id, frame |-> ConvFrame, k |-> k, b |-> b, atype |-> ArgTypeOf(id), precise |-> FullPrecision(ArgTypeOf(id)), ebn0dB |-> 10 * k,
          snrLin |-> [m |-> b, e |-> k],
          snrdB |-> IF b = 1 THEN <<10 * k>> ELSE IF b = 10 THEN <<10 * k + 10>> ELSE <<>>,
          y |-> 10 * k + b - 5]
